@@ -47,6 +47,8 @@ type c18Change struct {
 	P []string `json:"p"`
 	W string   `json:"w"`
 	D string   `json:"d"` // human readable detail
+	M int      `json:"m"` // permission bits afterwards (outside paths)
+	T bool     `json:"t0"` // mtime afterwards equals the snapshot nodes' mtime (outside paths)
 }
 
 type c18Rec struct {
@@ -240,10 +242,14 @@ func c18Scenario(r *vrRepo, sn *data.Snapshot, base string, env c18Env) (changes
 	after := vrCapture(base)
 	changes = []c18Change{}
 	add := func(p, w, d string) {
+		c := c18Change{P: strings.Split(p, "/"), W: w, D: d}
 		if strings.HasPrefix(p, "target") {
-			d = "" // keep the records small
+			c.D = "" // keep the records small
+		} else if a, ok := after[p]; ok {
+			c.M = int(a.Mode & 0o7777)
+			c.T = a.Mtime == c18T0.UnixNano()
 		}
-		changes = append(changes, c18Change{P: strings.Split(p, "/"), W: w, D: d})
+		changes = append(changes, c)
 	}
 	for p, b := range before {
 		a, ok := after[p]
@@ -348,7 +354,7 @@ func TestVerif_C18(t *testing.T) {
 				continue
 			}
 			if kit.Thorough() {
-				if e.Sparse != ((ti+ei)%2 == 0) {
+				if e.Sparse != ((ti+ei)%2 == 0) || rng.Float64() >= 0.4 {
 					continue
 				}
 			} else if rng.Float64() >= quickP {
